@@ -270,6 +270,11 @@ def build_tasks(tier):
             {'its': {0: r0(6, 8), 1: r0(6, 7, 8)}, 'boxes': {
                 0: etgen.tensor_boxes(shapes[0], (1, 1, 1)),
                 1: etgen.tensor_boxes(shapes[1], (1, 1, 1))}}],
+        # non-monotone: a short re-run from an earlier checkpoint ends
+        # before the older restart does
+        4: [{'its': {0: r0(0, 2, 4, 6, 8), 1: r0(0, 1, 2, 3, 4, 5, 6, 7, 8)},
+             'boxes': bx},
+            {'its': {0: r0(2, 4), 1: r0(2, 3, 4)}, 'boxes': bx}],
     }
     var_reqs = [['alpha'], ['betaup3'], ['betax', 'gxy'], ['gammadown3'],
                 ['gxx', 'alpha', 'rho0'], ['Ktrace', 'velup3']]
@@ -277,7 +282,7 @@ def build_tasks(tier):
                 r0(2, 6, 4), r0(4, 0, 2)]
     it_reqs1 = [r0(1), r0(4, 3), r0(5, 4, 4, 0), r0(2, 0, 1, 4, 3)]
     for (grouped, proc), nres, split in itertools.product(
-            LAYOUTS, (1, 2, 3), (False, True)):
+            LAYOUTS, (1, 2, 3, 4), (False, True)):
         restarts = rsets[nres]
         spec = base_spec('sim', grouped, proc, 2, shapes, restarts,
                          variables=etgen.ALLVARS)
@@ -288,7 +293,7 @@ def build_tasks(tier):
                 reqs.append((rv, ri, 0, -1, ex))
             for ri in it_reqs1:
                 reqs.append((rv, ri, 1, -1, ex))
-            for r in range(nres):
+            for r in range(len(restarts)):
                 reqs.append((rv, r0(4, 2), 0, r, ex))
         tasks.append((spec, reqs, 'sorted', False,
                       (f"F4:restarts={nres}:split={int(split)}",
